@@ -36,6 +36,17 @@ def main():
                 continue
             open(fn, "w").write(src.replace(m["old"], m["new"]))
             b = sh("cd %s && go build ./... && go test -vet=off -count=1 ./... 2>&1 | tail -30" % WT, env=env)
+            # packages that fail are run again (twice): rtptime's TestTime and webserver's fixed port 1234 fail on a busy machine
+            for attempt in range(2):
+                failed = [l.split()[1] for l in b.stdout.splitlines() if l.startswith("FAIL\t")]
+                if b.returncode != 0 or not failed:
+                    break
+                time.sleep(3)
+                b2 = sh("cd %s && go test -vet=off -count=1 %s 2>&1 | tail -30" % (WT, " ".join(failed)), env=env)
+                if "FAIL" not in b2.stdout:
+                    b = b2
+                    break
+                b = b2
             if b.returncode != 0 or "FAIL" in b.stdout:
                 results.append(dict(m, outcome="invalid: does not build or breaks the pinned suite", detail=(b.stdout + b.stderr)[-400:]))
                 print(m["id"], "INVALID")
